@@ -411,7 +411,7 @@ package rapid
 //@ func (*T).fail
 //@   requires [C14] unlocked(t)
 //@   ensures [C02,C14] t.failed != ""
-//@   ensures [C02] !now && t.failed == stopTest(msg)
+//@   ensures [C02] !now && implies(msg != "", t.failed == stopTest(msg))
 //@   ensures [C14] unlocked(t)
 //@   panics stopTest [C02,C14]: now && t.failed != "" && strOf(panicval) == t.failed && unlocked(t)
 //@   modifies t.failed, lockmode[addr(t.mu)]
